@@ -27,6 +27,17 @@ ROUND9 = {
 }
 if pid in ROUND9:
     prev.append(f"- (a change exploiting) {ROUND9[pid]}")
+# round 11 proposals were lost likewise (session interrupted before filing); the input classes they exploited:
+ROUND11 = {
+    "C06": "several axes each weighted by its own metric, lazily", "C07": "two lazy transforms evaluated in one computation; in-memory target_data next to lazy data",
+    "C08": "target levels barely outside the range of target_data", "C09": "cumint after a metric was replaced with overwrite",
+    "C10": "a metric replaced by one stored with transposed dimensions", "C11": "a kernel wrapped earlier with other options",
+    "C12": "COMODO datasets with dimensions that belong to no axis", "C13": "names joined by an underscore; sequential metric requests on one Grid",
+    "C14": "NumPy-typed topology_dimension attribute", "C15": "line break / tab characters in signature strings",
+    "C18": "the deprecated 2-D vector wrappers raising half-way", "C20": "unknown word as a default shift; ufunc input with two dimensions of an axis; integer-typed bins",
+}
+if pid in ROUND11:
+    prev.append(f"- (a change exploiting) {ROUND11[pid]}")
 
 print(f"""You are helping to evaluate a verification harness for the Python library xgcm (xarray-based staggered-grid operations).
 Your job is to play the adversary: write ONE realistic, subtle change to the library's source that BREAKS the property
